@@ -203,12 +203,17 @@ def run_impl(case):
 # ---------------------------------------------------------------------------
 # generation
 
-def rand_levels(rng, family, cplx, zero_block=False):
+def rand_levels(rng, family, cplx, zero_block=False, offset=False):
     """a pool of energies whose pairwise differences have exact float reciprocals."""
     if family == "sympy":
         pool = [G(Fr(rng.randint(-6, 6), rng.choice([1, 1, 2, 3])), Fr(rng.randint(-2, 2)) if cplx else 0) for _ in range(6)]
         return pool
     c = 0 if zero_block else rng.randint(-3, 3)  # a zero block has energy 0: keep differences exact
+    if offset:
+        # a large common offset with small spacings (all exactly representable, differences +-1, +-2,
+        # +-4): a guard with a RELATIVE tolerance (np.isclose) treats these levels as degenerate,
+        # the real guard |dE| > atol does not
+        c = rng.choice([2 ** 20, 2 ** 30, -(2 ** 20), 2 ** 24 + 3])
     s = rng.choice([1, 1, 2])
     if cplx:
         base = [G(0, 0), G(1, 0), G(0, 1), G(1, 1)]
@@ -239,11 +244,13 @@ def rand_case(rng, want=None):
     cplx_e = rng.random() < 0.3
     cplx_y = rng.random() < 0.6
     nb = rng.randint(1, 4)
-    mode = want or rng.choice(["separated", "separated", "shared", "zero-block", "implicit"])
-    pool = rand_levels(rng, family, cplx_e, zero_block=(mode == "zero-block"))
+    mode = want or rng.choice(["separated", "separated", "shared", "zero-block", "implicit", "offset"])
+    if mode == "offset":
+        family = "numeric"
+    pool = rand_levels(rng, family, cplx_e, zero_block=(mode == "zero-block"), offset=(mode == "offset"))
     if family == "sympy" and mode == "implicit":
         mode = "separated"
-    sizes = [rng.randint(1, 3) for _ in range(nb)]
+    sizes = [rng.randint(2 if mode == "offset" else 1, 3) for _ in range(nb)]
     # assign levels to blocks
     if mode in ("separated", "implicit"):
         lv = list(pool)
@@ -276,6 +283,8 @@ def rand_case(rng, want=None):
         i, j = rng.randrange(nb), rng.randrange(nb)
         if reqs and rng.random() < 0.3:
             i, j = reqs[-1]["i"], reqs[-1]["j"]
+        if mode == "offset" and i < nb and rng.random() < 0.7:
+            j = i   # different blocks with a common large offset are "shared" for np.isclose (ValueError)
         u = rng.random()
         if u < 0.04:
             i = nb + rng.randint(0, 1)
